@@ -195,3 +195,31 @@ Fixpoint mentions_merge (p : prog) : bool :=
       (fix go (l : list (catch * prog)) : bool := match l with [] => false | (_, h) :: r => mentions_merge h || go r end) hs
   | _ => false
   end.
+
+(* ------------------------------------------------------------------ how often a stage can be called *)
+Definition stage_eqb (a b : stage) : bool :=
+  match a, b with
+  | SPre, SPre | SOvl, SOvl | SMerge, SMerge => true
+  | SAux x, SAux y => Nat.eqb x y
+  | _, _ => false
+  end.
+Definition obind2 (f : nat -> nat -> nat) (a b : option nat) : option nat :=
+  match a, b with Some x, Some y => Some (f x y) | _, _ => None end.
+(* an upper bound on the number of calls of stage s in one execution of p; None = no bound (a call inside a loop) *)
+Fixpoint calls_bound (s : stage) (p : prog) : option nat :=
+  match p with
+  | PCall s' => Some (if stage_eqb s s' then 1 else 0)
+  | PSeq a b => obind2 Nat.add (calls_bound s a) (calls_bound s b)
+  | PIf a b => obind2 Nat.max (calls_bound s a) (calls_bound s b)
+  | PLoop a => match calls_bound s a with Some 0 => Some 0 | _ => None end
+  | PTry b hs e f =>
+      obind2 Nat.add (obind2 Nat.add (calls_bound s b) (calls_bound s e))
+        (obind2 Nat.add (calls_bound s f)
+           ((fix go (l : list (catch * prog)) : option nat :=
+               match l with [] => Some 0 | (_, h) :: r => obind2 Nat.add (calls_bound s h) (go r) end) hs))
+  | _ => Some 0
+  end.
+Fixpoint hs_bound (s : stage) (l : list (catch * prog)) : option nat :=
+  match l with [] => Some 0 | (_, h) :: r => obind2 Nat.add (calls_bound s h) (hs_bound s r) end.
+Fixpoint count_stage (s : stage) (t : list event) : nat :=
+  match t with [] => 0 | (s', _) :: r => (if stage_eqb s s' then 1 else 0) + count_stage s r end.
